@@ -216,6 +216,91 @@ def history(run, rng, nclients, nservers, nreq, forged, chosen_ids=False, label=
     return peak
 
 
+def iocb_history(run, rng, nclients, nservers, nreq):
+    """the same question one layer up: requests submitted as IOCBs (queued per peer by the application) while the application
+    also sends unconfirmed traffic to the same peers; every IOCB completes once, with the answer to its own request"""
+    from ..stacks import IOApp
+    from bacpypes.apdu import UnconfirmedPrivateTransferRequest, IAmRequest, WhoIsRequest
+    CLOCK.reset()
+    events = []
+    lan = FaultNet("lan", Plan())
+    lan.frame_cap = 100000
+    clients = [Stack(lan, 1 + i, events, "c%d" % i, IOApp, retries=1, apduTimeout=3000, apduSegmentTimeout=2000) for i in range(nclients)]
+    servers = [Stack(lan, 20 + i, events, "s%d" % i, DirectApp, app_timeout=30000, retries=1, apduTimeout=3000, apduSegmentTimeout=2000)
+               for i in range(nservers)]
+    CLOCK.settle()
+    wit = {"clients": nclients, "servers": nservers, "requests_per_client": nreq, "class": "iocb"}
+    reqs = {}
+    token = 6000
+    unconfirmed = 0
+    try:
+        remaining = [nreq] * nclients
+        while any(remaining):
+            ci = rng.randrange(nclients)
+            c = clients[ci]
+            for _ in range(min(remaining[ci], rng.choice([1, 2, 5]))):
+                token += 1
+                si = rng.randrange(nservers)
+                servers[si].app.behaviour[token] = ("ack", rng.choice([0, 5, 50]), rng.choice([0, 0.3, 1.0, 2.0]))
+                c.send(c.cpt_request(servers[si].address, token, rng.choice([0, 5, 50])), token)
+                reqs[token] = {"client": ci, "server": si, "t_req": CLOCK.now}
+                remaining[ci] -= 1
+            # unconfirmed traffic of the same application toward the same (and other) peers
+            for _ in range(rng.randrange(0, 3)):
+                dest = rng.choice(servers).address
+                kind = rng.choice(["private", "i-am", "who-is"])
+                if kind == "private":
+                    u = UnconfirmedPrivateTransferRequest(vendorID=999, serviceNumber=1, destination=dest)
+                elif kind == "i-am":
+                    u = IAmRequest(iAmDeviceIdentifier=c.device.objectIdentifier, maxAPDULengthAccepted=1024, segmentationSupported="segmentedBoth",
+                                   vendorID=999, destination=dest)
+                else:
+                    u = WhoIsRequest(destination=dest)
+                CLOCK.drive(duration=rng.choice([0, 0.1, 0.4]), max_steps=200000)
+                c.app.request(u)
+                unconfirmed += 1
+            CLOCK.drive(duration=rng.choice([0, 0.2, 1.0]), max_steps=200000)
+        CLOCK.drive(duration=60.0 + 4.0 * nreq, max_steps=800000)
+    except StepBudgetExceeded as err:
+        run.violation("history-does-not-quiesce", dict(wit, error=str(err)))
+        return
+    except Exception as err:
+        run.violation("iocb-history-raised/" + type(err).__name__, dict(wit, error=repr(err)[:120]))
+        return
+    run.count("iocb_requests_submitted", len(reqs))
+    run.count("unconfirmed_requests_interleaved", unconfirmed)
+    responded = {e["token"]: e["t"] for e in events if e["ev"] == "response" and e.get("token") is not None}
+    done = {}
+    for e in events:
+        if e["ev"] == "iocb-callback":
+            done.setdefault(e["token"], []).append(e)
+    for tok, r in reqs.items():
+        cb = done.get(tok, [])
+        run.count("iocb_completions_checked")
+        w = dict(wit, token=tok, completions=[(round(x["t"] - r["t_req"], 2), x["outcome"], x.get("answer_token")) for x in cb])
+        if len(cb) != 1:
+            run.violation("iocb-completed-%s" % ("more-than-once" if cb else "never"), w)
+            return
+        e = cb[0]
+        if tok in responded and e["outcome"] != "complex-ack":
+            run.violation("iocb-ended-without-the-answer-the-peer-sent/" + str(e["outcome"]), w)
+            return
+        if e.get("answer_token") is not None and e["answer_token"] != tok:
+            run.violation("iocb-completed-with-the-answer-to-another-request", w)
+            return
+        if tok in responded and e["t"] + 1e-9 < responded[tok]:
+            run.violation("iocb-completed-before-its-request-was-answered", w)
+            return
+    if transaction_census():
+        run.violation("transactions-left-after-history", dict(wit, n=len(transaction_census())))
+        return
+    for c in clients:
+        if c.app.queue_by_address:
+            run.violation("iocb-queue-entry-left", dict(wit, queues=[str(k) for k in c.app.queue_by_address]))
+            return
+    run.count("iocb_histories")
+
+
 def inject_forgeries(rng, lan, clients, servers, reqs, events):
     """frames that must be ignored: foreign source, id not live, replay after completion, stray acks/aborts.
     A (source, invoke id) pair that is live for the targeted client is never forged: such a frame would be
@@ -274,7 +359,8 @@ def main():
     thorough = run.tier == "thorough"
     if thorough and run.args.shard is None:
         run.run_shards("rv.props.c11", timeout=3400)
-        return run.finish(require=("histories", "confirmations_matched", "indications_checked", "equal_invoke_ids_from_different_peers"))
+        return run.finish(require=("histories", "confirmations_matched", "indications_checked", "equal_invoke_ids_from_different_peers",
+                                   "iocb_completions_checked", "unconfirmed_requests_interleaved"))
     rng = run.rng("c11")
     n = (32000 if thorough else 300) // (run.shard[1] if thorough else 1) + 1
     for i in range(n):
@@ -287,6 +373,11 @@ def main():
         run.case(("mixed", run.shard[0], i), nontrivial=bool(peak and peak > 1),
                  sample={"clients": nclients, "servers": nservers, "requests_per_client": nreq, "forged": forged, "chosen_ids": chosen, "peak": peak},
                  sample_key=("mixed", nclients, forged))
+    for i in range((6000 if thorough else 60) // (run.shard[1] if thorough else 1) + 1):
+        nclients, nservers, nreq = rng.choice([1, 2]), rng.choice([1, 1, 2, 3]), rng.choice([2, 5, 12])
+        run.case(("iocb", run.shard[0], i), sample={"class": "iocb", "clients": nclients, "servers": nservers, "requests_per_client": nreq},
+                 sample_key=("iocb", nclients))
+        iocb_history(run, rng, nclients, nservers, nreq)
     for i in range(2 if not thorough else 3):
         if thorough and not run.mine(i):
             continue
@@ -294,7 +385,8 @@ def main():
         run.case(("sequential", i), sample={"class": "300 sequential requests (invoke id wrap)", "peak": peak}, sample_key=("seq",))
         peak = history(run, rng, 1, 1, 300, rng.random() < 0.5, label="exhaustion")
         run.case(("exhaustion", i), nontrivial=True, sample={"class": "300 overlapping requests to one peer", "peak": peak}, sample_key=("exh",))
-    run.finish(require=("histories", "confirmations_matched", "indications_checked", "equal_invoke_ids_from_different_peers"))
+    run.finish(require=("histories", "confirmations_matched", "indications_checked", "equal_invoke_ids_from_different_peers",
+                                   "iocb_completions_checked", "unconfirmed_requests_interleaved"))
 
 
 if __name__ == "__main__":
